@@ -186,7 +186,7 @@ class Loss:
         ps = [abs(float(p)) for p in y_pred.values()] or [0.0]
         cm = max([abs(x) for x in self.spec.get('c', [0, 1, 1, 1])] + [1])
         m = max(ps) + abs(float(y_true)) + 1.0
-        sc = len(ps) * cm * m * m * 4
+        sc = max(len(ps) * cm * m * m * 4, 4.0 * abs(self.spec.get('offset') or 0))
         if sc > self.scale:
             self.scale = sc
         if self.log is not None:
